@@ -122,6 +122,16 @@ static std::string valid_artefact(Rng &r, const std::string &kind)
             pos = e + 1;
             n++;
         }
+        if (r.chance(0.12)) { // legal but unusual: a one-phone first entry and an entry with a very long pronunciation
+            std::string longline = "loooong";
+            int np = r.pick(std::vector<int> { 14, 25, 40, 90, 250 });
+            for (int q = 0; q < np; ++q)
+                longline += " " + r.pick(L.phones);
+            size_t at = t.find('\n', t.size() ? r.below(t.size()) : 0);
+            t.insert(at == std::string::npos ? t.size() : at + 1, longline + "\n");
+            if (r.chance(0.7))
+                t = "a AH\n" + t;
+        }
         return t;
     }
     if (kind == "fdict_file")
@@ -169,7 +179,7 @@ static std::string mutate_text(Rng &r, std::string t, const std::string &kind, s
     };
     for (int i = 0; i < k; ++i) {
         size_t n = t.size();
-        switch (r.weighted({ 14, 10, 10, 8, 8, 18, 6, 5, 4, 5, 4, 8 })) {
+        switch (r.weighted({ 14, 10, 10, 8, 8, 18, 6, 5, 4, 5, 4, 8, 7 })) {
         case 0: // truncate
             if (n) { t.resize(r.below(n)); note("text.truncate"); }
             break;
@@ -241,6 +251,26 @@ static std::string mutate_text(Rng &r, std::string t, const std::string &kind, s
             size_t a = n ? r.below(n) : 0, b = other.size() ? r.below(other.size()) : 0;
             t = t.substr(0, a) + other.substr(b);
             note("text.splice");
+            break;
+        }
+        case 11: { // one whitespace-delimited element repeated many times (long pronunciations, long sequences, long lists)
+            if (!n)
+                break;
+            size_t o = r.below(n);
+            size_t b = t.find_last_of(" \t\n", o);
+            b = b == std::string::npos ? 0 : b + 1;
+            size_t e = t.find_first_of(" \t\n", b);
+            if (e == std::string::npos)
+                e = n;
+            std::string tok = t.substr(b, e - b);
+            if (tok.empty() || tok.size() > 40)
+                break;
+            int times = r.pick(std::vector<int> { 3, 12, 13, 25, 31, 60, 130, 300, 2000 });
+            std::string rep;
+            for (int q = 0; q < times; ++q)
+                rep += " " + tok;
+            t.insert(e, rep);
+            note("text.repeat_element");
             break;
         }
         default: { // unstructured bytes
@@ -965,21 +995,9 @@ struct LoadWorld : World {
     std::string crash_trigger(const Json &plan, int op, const std::string &note) const override
     {
         if (plan.gets("profile") == "C10") {
-            // the artefact kind, plus ":nest>=150" when the text nests brackets that deep (so that the known
-            // blow-up on deeply nested grammars cannot hide a hang on ordinary input)
+            // the artefact kind (where a hang was looping is the class's site, see kernel.cc hang_site)
             std::string t = note.empty() ? "-" : note;
-            const auto &ops = plan["ops"].a;
-            if (op >= 0 && op < (int)ops.size()) {
-                int depth = 0, maxd = 0;
-                for (char c : ops[(size_t)op].gets("text")) {
-                    if (c == '[' || c == '(')
-                        maxd = std::max(maxd, ++depth);
-                    else if ((c == ']' || c == ')') && depth > 0)
-                        --depth;
-                }
-                if (maxd >= 150)
-                    t += ":nest>=150";
-            }
+            (void)op;
             return t;
         }
         (void)op;
